@@ -37,10 +37,10 @@ type Node struct {
 
 // Case is a template (forest of nodes) plus its data.
 type Case struct {
-	Nodes []Node                       `json:"nodes"`
-	Vars  map[string]vals.V            `json:"vars,omitempty"`
+	Nodes []Node                         `json:"nodes"`
+	Vars  map[string]vals.V              `json:"vars,omitempty"`
 	Lists map[string][]map[string]vals.V `json:"lists,omitempty"` // loop lists: items are maps with an "id"
-	Entry string                       `json:"entry,omitempty"` // "" = RenderString, "file" = NewFS().Load().Render
+	Entry string                         `json:"entry,omitempty"` // "" = RenderString, "file" = NewFS().Load().Render
 }
 
 // Out is one marker of the predicted / observed outline.
@@ -115,6 +115,7 @@ type stats struct {
 	depth       int
 	forElse     []*Node // region of C03-vfor-on-else-member: chosen non-first members carrying v-for
 	forIfElif   []*Node // region of C03-vfor-on-if-member: falsy first member carrying v-for, next member v-else-if
+	forSkipped  []*Node // region of C03-vfor-member-after-chosen-branch: an earlier member was chosen (v-else-if, or v-if with v-for) and the member directly before the v-else carries v-for
 	negated     bool
 	sibBefore   bool
 	sibAfter    bool
@@ -246,6 +247,12 @@ func (m *model) eval(nodes []Node, sc scope, depth int, inLoop, inChain bool) []
 					m.st.forElse = append(m.st.forElse, mem)
 				}
 				out = append(out, m.member(mem, sc, depth, inLoop)...)
+			}
+			// members after the chosen one are not skipped but left to be dropped as orphans when the
+			// choice was a v-else-if, or a v-if that carries v-for (region of fForSkip)
+			if last := len(members) - 1; last >= 2 && members[last].Kind == "else" && members[last-1].For > 0 &&
+				chosen >= 0 && chosen < last-1 && (chosen >= 1 || members[0].For > 0) {
+				m.st.forSkipped = append(m.st.forSkipped, &members[last-1])
 			}
 			if members[0].For > 0 && chosen != 0 && len(members) > 1 && members[1].Kind == "elif" {
 				m.st.forIfElif = append(m.st.forIfElif, &members[0])
